@@ -159,6 +159,16 @@ def g_clone(m, path, r):
     return deep_clone(v)
 
 
+@generic("<_ as Clone>::clone_from")
+def g_clone_from(m, path, dst, src):
+    v = deref(src)
+    if isinstance(v, Agg) and m.world.is_derived(v.ty, "Clone") is False:
+        return NotImplemented
+    while isinstance(dst.get(), Ref): dst = dst.get()
+    dst.set(deep_clone(v))
+    return UNIT
+
+
 @generic("<_ as ToOwned>::to_owned")
 def g_to_owned(m, path, r):
     v = deref(r)
@@ -472,7 +482,9 @@ M["std::result::Result::map_err"] = lambda m, r, f: r if r.tag == 0 else ERR(m.c
 M["std::result::Result::map"] = lambda m, r, f: OK(m.call_value(f, [r.fields[0]])) if r.tag == 0 else r
 M["std::result::Result::or_else"] = lambda m, r, f: r if r.tag == 0 else m.call_value(f, [r.fields[0]])
 M["std::result::Result::and_then"] = lambda m, r, f: m.call_value(f, [r.fields[0]]) if r.tag == 0 else r
-M["std::result::Result::ok"] = lambda m, r: SOME(r.fields[0]) if r.tag == 0 else NONE()
+M["std::result::Result::and"] = lambda m, r, other: other if r.tag == 0 else r
+M["std::result::Result::or"] = lambda m, r, other: r if r.tag == 0 else other
+M["std::result::Result::ok"] =lambda m, r: SOME(r.fields[0]) if r.tag == 0 else NONE()
 M["std::result::Result::err"] = lambda m, r: SOME(r.fields[0]) if r.tag == 1 else NONE()
 M["std::result::Result::unwrap_or"] = lambda m, r, d: r.fields[0] if r.tag == 0 else d
 M["std::result::Result::unwrap_or_else"] = lambda m, r, f: r.fields[0] if r.tag == 0 else m.call_value(f, [r.fields[0]])
